@@ -275,6 +275,11 @@ def shard_ops(task):
     cases = ops_cases(tier) if which == "ops" else presence_cases()
     for case in cases[lo:hi]:
         status, exp, o, text = run_case(case)
+        if case.get("block") == "presence" and case.get("rclass") == "empty-nonnull" and case.get("op") in ("present", "absent"):
+            # An attribute that exists but is empty ('', [], 0, false): the statement names the
+            # relation "present/absent" without saying whether emptiness counts (Custodian itself
+            # pairs present with not-null and absent with empty in places): counted, not compared.
+            status = "unspec"
         part.case(nontrivial=status not in ("unspec", "untranslatable"))
         if status in ("unspec", "untranslatable"):
             part.outcome(status)
